@@ -165,6 +165,25 @@ def _task(t: T.Tuple[str, int, int, bool]) -> dict:
         res['viol'] = v
         res['oracle_checks'] = n
         return res
+    if kind == 'tree':
+        mp = im.mparser
+        for _ in range(n):
+            code, files = c01_gen.tree_program(rng)
+            res['n'] += 1
+            try:
+                ast = im.parse(code)
+                fasts = {rel: im.parse(txt) for rel, txt in files.items()}
+                line = c01_impl.serialise_tree(mp, ast, fasts)
+            except Exception:
+                res['parse_errors'] += 1
+                continue
+            ans, viol = c01_oracle.run_stepwise(im, code, ast, files)
+            for key, what, case in viol:
+                case['files'] = files
+            res['viol'] += viol
+            res['cases'].append(('tree', code + ''.join(f'\n#--- {rel}/meson.build\n{txt}' for rel, txt in files.items()),
+                                 line, ans))
+        return res
     for sub, code in _programs(kind, rng, n, full):
         res['n'] += 1
         try:
@@ -200,7 +219,7 @@ def plan(ctx: Ctx) -> T.List[T.Tuple[str, int, int, bool]]:
                                                    ('functions', rng.getrandbits(32), 0, full)]
     chunk = 250
     for kind, total in (('rand', ctx.scale(14000, 40000)), ('mutant', ctx.scale(9000, 25000)),
-                        ('alias', ctx.scale(4000, 10000))):
+                        ('alias', ctx.scale(4000, 10000)), ('tree', ctx.scale(3000, 10000))):
         for _ in range(total // chunk):
             tasks.append((kind, rng.getrandbits(32), chunk, full))
     for name, total, ch in (('short_circuit', ctx.scale(1500, 5000), 250), ('divmod', ctx.scale(3000, 10000), 500),
@@ -482,7 +501,7 @@ def replay(ctx: Ctx, rep: dict) -> None:
         im.close()
 
 
-MUST_FAIL = ('cross-type', 'int-op-bool', 'div-zero', 'index-bounds', 'short-circuit-eager', 'parse-accepts')
+MUST_FAIL = ('cross-type', 'int-op-bool', 'bool-as-int-argument', 'div-zero', 'index-bounds', 'short-circuit-eager', 'parse-accepts')
 
 
 def _still_fails(im: c01_impl.Impl, rep: dict) -> bool:
